@@ -81,6 +81,7 @@ struct primesieve_verif_probe
 
 extern uint64_t (*primesieve_verif_nth_approx)(uint64_t);
 extern uint64_t primesieve_verif_min_thread_distance;
+extern bool primesieve_verif_ignore_sqrt_threshold;
 extern void (*primesieve_verif_piece_hook)(uint64_t i, uint64_t start, uint64_t stop);
 bool isPrimeOracle(uint64_t n);
 void oracleRange(uint64_t lo, uint64_t hi, std::vector<char>& out);
@@ -388,10 +389,12 @@ int streamCount(std::istream& in)
     uint64_t start = u64(t[1]), stop = u64(t[2]);
     int kib = atoi(t[3].c_str()), threads = atoi(t[4].c_str());
     uint64_t md = u64(t[5]);
-    std::cout << "count " << start << " " << stop << " " << kib << " " << threads << " " << md << " cores=" << cores << " => ";
+    bool nosqrt = t.size() > 6 && t[6] == "nosqrt";     // hook H1b: the override alone decides the number of threads
+    std::cout << "count " << start << " " << stop << " " << kib << " " << threads << " " << md << " cores=" << cores << (nosqrt ? " nosqrt" : "") << " => ";
     try
     {
       primesieve_verif_min_thread_distance = md;
+      primesieve_verif_ignore_sqrt_threshold = nosqrt;
       primesieve_verif_piece_hook = pieceHook;
       pieceLog.clear();
       primesieve::ParallelSieve ps;
@@ -424,6 +427,7 @@ int streamCount(std::istream& in)
       std::cout << "ERR:" << errClass(e) << "\n";
     }
     primesieve_verif_min_thread_distance = 0;
+    primesieve_verif_ignore_sqrt_threshold = false;
     primesieve_verif_piece_hook = nullptr;
   }
   return 0;
